@@ -227,6 +227,10 @@ def esi_agree(view, T, sh, ln, dn):
     if lo != hi:
         return False, "lower and upper bound differ: %s vs %s" % (term_str(lo), term_str(hi))
     if ln is None:
+        # the provided len() calls size_hint(): a size_hint written through self.len() would never terminate
+        raw = strip(ret_term(view, sh))
+        if any(isinstance(x, tuple) and x and x[0] == "call" and is_self_len_call(x, T) for x in walk(raw)):
+            return False, "size_hint() is written through self.len(), but len() is the provided method, which calls size_hint(): neither terminates"
         return True, "size_hint = (n, Some(n)); len() is the provided one, which returns that n"
     lt = count_term(view, T, sh, ln, ret_term(view, ln))
     if deleg:
@@ -488,7 +492,19 @@ def r_cursor(ctx, view):
         esi = impl_for(prog, ESI, Tdesc)
         if esi is not None:
             ln = method(prog, esi, "len")
-            lt = count_term(view, T, method(prog, impl_for(prog, IT, T), "size_hint"), ln, ret_term(view, ln))
+            shm = method(prog, impl_for(prog, IT, T), "size_hint")
+            if ln is None:
+                # the provided len() returns the lower bound of size_hint() (R-ESI e2 decides whether that terminates)
+                r0 = strip(ret_term(view, shm)) if shm is not None else ("none",)
+                if r0[0] == "tuple" and len(r0[1]) == 2:
+                    lt = count_term(view, T, shm, None, r0[1][0])
+                    ln = shm
+                else:
+                    ctx.ob("R-CURSOR", T + ":c4:len-is-remaining", False, (shm or ms.get("next")).loc(),
+                           "neither len() nor a pair-valued size_hint() is defined for an iterator that declares an exact size")
+                    continue
+            else:
+                lt = count_term(view, T, shm, ln, ret_term(view, ln))
             fields = {self_field(x) for x in walk(lt)} - {None}
             need = {c["cursor"] for c in info.values() if c["cursor"]}
             ok, why = len_is_remaining(lt, fronts["cursor"] if fronts else None, backs["cursor"] if backs else None)
